@@ -586,8 +586,8 @@ def run(facts, R):
                             # (with two alternative write routes - bounded / unbounded - no single success edge dominates the clear: what
                             # matters is that the clear is unreachable from every failure edge)
                             set_blocks = [si for si, _ in fp["sets"]]
-                            if not fail_t or ci in b.reachable(list(fail_t), avoid=set_blocks) or ci in fail_t:
-                                clears_ok = False
+                            if not fail_t or ci in b.reachable(list(fail_t), avoid=set_blocks) or ci in fail_t or i in b.reachable(b.succs(ci), avoid=set_blocks):
+                                clears_ok = False        # (... and no write of the frame can still follow the clear)
             # tested before writing: the first write is guarded by load(flag) == false
             fs = facts_at(b, sym, facts, first)
             flag_names = {f2 for _, f2 in fp["sets"]}
